@@ -48,6 +48,18 @@ theorem C13_forget (g : Graph) (hwf : g.WF = true) (a : ForgetArgs) (dflt : Opti
 theorem C13_forget_fuel_suffices (fixed : Bool) (g : Graph) (hwf : g.WF = true) (a : ForgetArgs)
     (dflt : Option (List Name)) : forgetTarget fixed g a dflt ≠ .fuel := forgetTarget_ne_fuel fixed g hwf a dflt
 
+/-- **forget ignores `calc_dep`.**  Neither the target list nor the effect of `forget` (any argument form, also
+    `--follow-sub`) depends on the `calc_dep` edges of the task set: a task that only *provides* calculated
+    dependencies to a forgotten task keeps its saved state and its ignore mark (it is in `ForgetSel` only if it is
+    named or reached over declared `task_dep` / `setup` edges, `C13_forget`). -/
+theorem C13_forget_ignores_calc_dep (fixed : Bool) (g : Graph) (c : Name → List Name) (a : ForgetArgs)
+    (dflt : Option (List Name)) (s : St) :
+    forgetTarget fixed { g with calcDep := c } a dflt = forgetTarget fixed g a dflt ∧
+    forgetCmd fixed { g with calcDep := c } a dflt s = forgetCmd fixed g a dflt s := by
+  refine ⟨forgetTarget_calcDep fixed g c a dflt, ?_⟩
+  unfold forgetCmd
+  rw [forgetTarget_calcDep]
+
 /-- an argument (or a configured default task) that names no task: the command is rejected, nothing is forgotten -/
 theorem C13_forget_unknown_name (g : Graph) (a : ForgetArgs) (dflt : Option (List Name)) (s : St) (n : Name)
     (h : forgetTarget true g a dflt = .notATask n) :
@@ -65,6 +77,13 @@ def gEx : Graph :=
     subOf := fun t => if t = 3 then some 2 else none }
 
 example : gEx.WF = true := by decide
+
+/-- non-vacuity: task 4 gets `calc_dep = [0]`; `forget -s 4` still clears only task 4, while the run hands `0` over
+    before `4` (`hardDeps`) -/
+example : forgetTarget true { gEx with calcDep := fun t => if t = 4 then [0] else [] } ⟨[4], true, false, false⟩ none
+      = .tasks [4] ∧
+    hardDeps { gEx with calcDep := fun t => if t = 4 then [0] else [] } (fun _ => TaskDef.empty) 4 = [0] := by decide
+
 example : forgetTarget true gEx ⟨[2], true, false, false⟩ none = .tasks [2, 3, 1, 0] := by decide
 example : forgetTarget true gEx ⟨[2], false, false, false⟩ none = .tasks [2, 3] := by decide
 example : forgetTarget true gEx ⟨[], false, false, false⟩ (some [4]) = .tasks [4] := by decide
